@@ -2,6 +2,7 @@ SPECIFICATION BSpec
 CONSTANTS
   Locked = TRUE
   Bodies <- BodiesT
+  Modes <- AllModes
   TickMs <- Ticks2
   MaxTicks = 6
   MaxPre = 0
